@@ -89,8 +89,28 @@ def sigs():
             for name, obj in GETDEFS[0]().items()}
 
 
+def run_errors_tree(v):
+    """runErrors by value: the entries saved for the harness fail step (the only steps that carry
+    onError / swallow), each reduced to its customError - the other fields are immutable scalars
+    and the exception object.  The entry of a run-ending error of any other step (customError
+    always a fresh {}) is not part of the observation; None = nothing to show."""
+    if isinstance(v, list) and all(isinstance(e, Mapping) and 'customError' in e and 'exception' in e for e in v):
+        kept = [e for e in v if e.get('step') == 'vfail']
+        if not kept:
+            return None
+        return {'l': [{'d': [['customError', to_tree(e['customError'])]]} for e in kept]}
+    return to_tree(v)
+
+
 def snapshot(context):
-    return [[k, to_tree(v)] for k, v in context.items() if k not in c12_lang.RESERVED]
+    out = []
+    for k, v in context.items():
+        if k in c12_lang.RESERVED:
+            continue
+        t = run_errors_tree(v) if k == 'runErrors' else to_tree(v)
+        if t is not None:
+            out.append([k, t])
+    return out
 
 
 def record(context):
